@@ -108,13 +108,29 @@ def _int(I, args, kwargs):
 
 
 def _range(I, args):
-    cs = []
-    for a in args:
-        a = I.ctx.resolve(a)
-        if isinstance(a, (SInt, SBool)):
-            a = I.ctx.concretize(a)
-        cs.append(a)
-    return range(*cs)
+    cs = [I.ctx.resolve(a) for a in args]
+    if not any(isinstance(a, (SInt, SBool)) for a in cs):
+        return range(*cs)
+    start, stop, step = (0, cs[0], 1) if len(cs) == 1 else (cs[0], cs[1], 1) if len(cs) == 2 else cs
+    if isinstance(step, (SInt, SBool)):
+        step = I.ctx.concretize(step)
+    if step < 1:
+        return range(*[I.ctx.concretize(a) if isinstance(a, (SInt, SBool)) else a for a in (start, stop)], step)
+    # a loop over range(<symbolic>): its length is checked against the iteration bound of the exploration (for the
+    # termination contracts: 2 * len(buffer) + 8) BEFORE the first iteration -- a range whose length a device-supplied
+    # value controls ends the path as `loopbound`
+    count = V.range_count(start, stop, step)
+    rb = getattr(I.ctx, "range_bound", None)
+    bound = rb if rb is not None else I.ctx.loop_bound
+    if bound is not None and I.truth(V.compare(">", count, bound)):
+        raise V.LoopBound()
+    if rb is not None:
+        return V.SymRange(start, stop, step, count)  # unbounded contracts: the loop is summarised (for_hook)
+    # within the bound: one path per value (the values are pinned, later uses of the same expressions are concrete)
+    try:
+        return range(*[I.ctx.concretize(a) if isinstance(a, (SInt, SBool)) else a for a in (start, stop)], step)
+    except Unsupported:
+        return V.SymRange(start, stop, step, count)  # too many values: iterated lazily, one decision per iteration
 
 
 def _isinstance(I, obj, cls):
@@ -255,6 +271,10 @@ def call(I, f, args, kwargs):
     if f is builtins.abs:
         a = args[0]
         return V.ite(V.compare("<", a, 0), V.arith("-", 0, a), a)
+    if f is builtins.divmod:
+        import ast as _ast
+
+        return (I.binop(_ast.FloorDiv, args[0], args[1]), I.binop(_ast.Mod, args[0], args[1]))
     if f in (builtins.hex, builtins.str, builtins.repr, builtins.format, builtins.chr, builtins.bin, builtins.oct):
         return _text(I, f.__name__, *args)
     if f is builtins.all:
